@@ -601,6 +601,7 @@ func runC10(w *World, r *Report) {
 	}
 
 	shareRule(w, r, "C10.designated-handlers-reach-nested-runs", "every wrapper between a graph node and its runnable passes the call options on in both of its forms (value and stream): a handler designated by path into a nested graph travels in them", 40, "C16", "C16.opts-forwarded")
+	shareRule(w, r, "C10.run-info-per-node-not-per-executor", "compiling a node writes the node's meta and run info into a per-node copy of the executor's runnable, never into the runnable a user's Lambda owns: one Lambda used for two nodes (or in two graphs) would otherwise report every execution under the run info of whichever node compiled last", 1, "C09", "C09.node-compile-no-shared-write")
 
 	r.Rule("C10.init-detaches", "InitCallbacks installs a manager (or nil) into the context on every path: it never returns the incoming context unchanged", 1)
 	{
